@@ -3,6 +3,7 @@ package main
 // Rules added after seeded changes showed gaps (DESIGN.md §6 lists which seed led to which rule).
 
 import (
+	"sort"
 	"os"
 	"fmt"
 	"go/constant"
@@ -206,16 +207,17 @@ func ruleBatchStride(e *Engine, r *Reporter) {
 				if !ok || len(ph.Edges) != 2 {
 					continue
 				}
-				// phi(0, phi + K)
-				var stride int64 = -1
+				// phi(0, phi + K): K a constant > 1 or any non-constant value (a configured batch size)
+				var strideY ssa.Value
 				for _, ed := range ph.Edges {
 					if bo, ok := ed.(*ssa.BinOp); ok && bo.Op == token.ADD && bo.X == ssa.Value(ph) {
-						if k, ok := constInt(bo.Y); ok {
-							stride = k
+						if k, ok := constInt(bo.Y); ok && k <= 1 {
+							continue
 						}
+						strideY = bo.Y
 					}
 				}
-				if stride <= 1 {
+				if strideY == nil {
 					continue
 				}
 				// other uses: phi + K' (the window end)
@@ -233,13 +235,13 @@ func ruleBatchStride(e *Engine, r *Reporter) {
 					if isStride {
 						continue
 					}
-					k, ok := constInt(bo.Y)
-					if !ok {
-						continue
+					if k, ok := constInt(bo.Y); ok && k <= 1 {
+						continue // start+1 style index arithmetic, not a window
 					}
 					n++
 					top := topLevel(fn)
-					r.Check(k == stride, fmt.Sprintf("%s | batch loop #%d", fname(top), n), e.instrPos(bo), fmt.Sprintf("window = stride = %d", stride), fmt.Sprintf("the batch window is start+%d but the loop advances by %d: items between them are never executed (or executed twice)", k, stride))
+					ws, ss := describe_(bo.Y), describe_(strideY)
+					r.Check(ws == ss, fmt.Sprintf("%s | batch loop #%d", fname(top), n), e.instrPos(bo), fmt.Sprintf("window = stride = %s", ss), fmt.Sprintf("the batch window is start+%s but the loop advances by %s: items between them are never executed (or executed twice)", ws, ss))
 				}
 			}
 		}
@@ -375,6 +377,7 @@ func ruleUserIdentityByParts(e *Engine, r *Reporter) {
 				text   string
 			}
 			var ids, rels []occ
+			listed := ""
 			var collect func(text string, guards []string)
 			collect = func(text string, guards []string) {
 				// predicates render as Eq{k=v, …} [if guard…]; nested And[...]/Or[...] lists are split on "; "
@@ -402,6 +405,10 @@ func ruleUserIdentityByParts(e *Engine, r *Reporter) {
 						}
 						if strings.HasPrefix(item, "user_object_id=") && item != `user_object_id="*"` { // a typed wildcard has no relation
 							ids = append(ids, occ{ig, item})
+							// a list of ids (IN …) beside lists of types/relations matches the cross product of the users' parts
+							if v := item[len("user_object_id="):]; strings.Contains(v, "append(") || strings.HasPrefix(v, "slice:") {
+								listed = item
+							}
 						}
 						if strings.HasPrefix(item, "user_relation=") {
 							rels = append(rels, occ{ig, item})
@@ -438,6 +445,10 @@ func ruleUserIdentityByParts(e *Engine, r *Reporter) {
 						return o
 					}())
 				}
+			}
+			if listed != "" {
+				ok = false
+				detail = "the user's object id is matched against a list (" + listed + ") independently of its type and relation: the filter accepts every mix of the listed users' parts"
 			}
 			key := fmt.Sprintf("%s %s tuple #%d", fname(fn), st.Verb, ordinalIn(fn, st.Root))
 			r.Check(ok, key, e.pos(st.Root.Pos()), "user_relation pinned with the id", detail+": a plain-object user filter also matches the usersets of that object ("+oneLine(st.render())+")")
@@ -683,5 +694,257 @@ func ruleExcludedUsersForwarded(e *Engine, r *Reporter) {
 	}
 	if n == 0 {
 		blind("excluded-users-forwarded: no operator reading excludedUsers and emitting foundUser found")
+	}
+}
+
+// ruleModelIDListDistinct: ReadAuthorizationModels of the mysql and postgres backends pages over a list of model ids
+// selected from a table whose key is (store, authorization_model_id, type): models written by old releases occupy one
+// row per type.  The id list the page and its continuation token are cut from must therefore be DISTINCT.
+func ruleModelIDListDistinct(e *Engine, r *Reporter) {
+	r.Rule("model-id-list-distinct", "a SELECT of authorization_model_id alone from authorization_model (the id list that is paged) is DISTINCT in every backend that builds it", 2)
+	n := 0
+	for _, be := range sqlBackends {
+		fn := e.FuncOpt("pkg/storage/"+be, "Datastore.ReadAuthorizationModels")
+		if fn == nil {
+			continue
+		}
+		for _, st := range e.sqlStmtsDeep(fn, 1) {
+			if st.Verb != "SELECT" || table(st) != "authorization_model" {
+				continue
+			}
+			if len(st.Columns) != 1 || !strings.Contains(st.Columns[0], "authorization_model_id") {
+				continue // selects whole rows: grouped by the caller, not paged by id alone
+			}
+			n++
+			distinct := false
+			for _, s := range st.Suffix {
+				if s == "DISTINCT" {
+					distinct = true
+				}
+			}
+			r.Check(distinct, be+".ReadAuthorizationModels | id list", e.pos(st.Root.Pos()), "SELECT DISTINCT authorization_model_id", "the paged id list is not DISTINCT: a model stored as one row per type is listed once per row, pages repeat it and the continuation token can point at itself")
+		}
+	}
+	if n == 0 {
+		blind("model-id-list-distinct: no id-only SELECT on authorization_model found")
+	}
+}
+
+// ruleNoLossAfterConsume: a tuple iterator's Next that has taken a row from the result set hands that row to its
+// caller: once the inner advance returned without error, no path returns a nil tuple.  (A context check placed after
+// the advance consumes a row and then reports only the context error — the row is lost to the caching wrappers,
+// which keep what was buffered and drain the rest.)
+func ruleNoLossAfterConsume(e *Engine, r *Reporter) {
+	r.Rule("no-loss-after-consume", "in the SQL tuple iterators' Next, every return reachable after the inner advance succeeded returns the row that was read (a cancelled context is noticed before a row is consumed, not after)", 2)
+	n := 0
+	for _, fn := range e.Fns {
+		if !sqlPkgs[pkgOf(fn)] || fn.Signature.Recv() == nil || fn.Name() != "Next" || !strings.Contains(typeBaseName(fn.Signature.Recv().Type()), "TupleIterator") {
+			continue
+		}
+		// the inner advance: a call to a method of the same receiver type returning (…, error)
+		var adv *ssa.Call
+		eachInstr(fn, false, func(in ssa.Instruction) {
+			c, ok := in.(*ssa.Call)
+			if !ok || adv != nil {
+				return
+			}
+			g := c.Call.StaticCallee()
+			if g == nil || g.Signature.Recv() == nil || !types.Identical(g.Signature.Recv().Type(), fn.Signature.Recv().Type()) {
+				return
+			}
+			res := g.Signature.Results()
+			if res.Len() == 2 && isErrorType(res.At(1).Type()) {
+				adv = c
+			}
+		})
+		if adv == nil {
+			continue
+		}
+		n++
+		okEdge := func(f Fact) bool {
+			return f.Kind == "nil" && f.Positive && derivesFrom(f.X, func(v ssa.Value) bool {
+				ex, ok := v.(*ssa.Extract)
+				return ok && ex.Tuple == ssa.Value(adv) && ex.Index == 1
+			})
+		}
+		bad := ""
+		for _, b := range fn.Blocks {
+			for si := range b.Succs {
+				hit := false
+				for _, f := range edgeFacts(b, si) {
+					if okEdge(f) {
+						hit = true
+					}
+				}
+				if !hit {
+					continue
+				}
+				reach := blocksReachableFrom(b.Succs[si])
+				for _, rs := range returnSites(fn) {
+					if reach[rs.At.Block()] && len(rs.Results) >= 1 && isNilConst(rs.Results[0]) {
+						bad = e.instrPos(rs.At)
+					}
+				}
+			}
+		}
+		r.Check(bad == "", fname(fn)+" | consumed row is returned", e.instrPos(adv), "after a successful advance only the row is returned", "after the inner advance succeeded the iterator can still return no tuple ("+bad+"): the consumed row is dropped, and a caching wrapper that keeps the buffered prefix and drains the rest stores a result without it")
+	}
+	if n == 0 {
+		blind("no-loss-after-consume: no SQL tuple iterator Next found")
+	}
+}
+
+
+// ruleIteratorHeadNextAgree: head() and next() of a SQL tuple iterator decode the same row into the same record;
+// both must fill the same fields of storage.TupleRecord (a field decoded by only one of them makes the tuple depend
+// on whether the consumer peeked first).
+func ruleIteratorHeadNextAgree(e *Engine, r *Reporter) {
+	r.Rule("iterator-head-next-agree", "head and next of every SQL tuple iterator touch the same set of storage.TupleRecord fields", 2)
+	n := 0
+	byType := map[string]map[string]*ssa.Function{}
+	for _, fn := range e.Fns {
+		if !sqlPkgs[pkgOf(fn)] || fn.Signature.Recv() == nil || fn.Parent() != nil {
+			continue
+		}
+		tn := typeBaseName(fn.Signature.Recv().Type())
+		if !strings.Contains(tn, "TupleIterator") {
+			continue
+		}
+		nm := pinnedSpellingName(fn)
+		if nm == "head" || nm == "next" {
+			k := short(pkgOf(fn)) + "." + tn
+			if byType[k] == nil {
+				byType[k] = map[string]*ssa.Function{}
+			}
+			byType[k][nm] = fn
+		}
+	}
+	fieldsOf := func(fn *ssa.Function) map[string]bool {
+		out := map[string]bool{}
+		eachInstr(fn, false, func(in ssa.Instruction) {
+			if fa, ok := in.(*ssa.FieldAddr); ok && typeBaseName(derefType(fa.X.Type())) == "TupleRecord" {
+				out[fieldName(fa.X.Type(), fa.Field)] = true
+			}
+		})
+		return out
+	}
+	for k, m := range byType {
+		if m["head"] == nil || m["next"] == nil {
+			continue
+		}
+		n++
+		h, nx := fieldsOf(m["head"]), fieldsOf(m["next"])
+		var diff []string
+		for f := range nx {
+			if !h[f] {
+				diff = append(diff, f+" (next only)")
+			}
+		}
+		for f := range h {
+			if !nx[f] {
+				diff = append(diff, f+" (head only)")
+			}
+		}
+		sort.Strings(diff)
+		r.Check(len(diff) == 0, k+" | head/next fill the same record fields", e.pos(m["head"].Pos()), fmt.Sprintf("%d fields each", len(h)), fmt.Sprintf("head and next decode different fields of the tuple record: %v — a tuple reached by peeking first differs from the same tuple read directly", diff))
+	}
+	if n == 0 {
+		blind("iterator-head-next-agree: no SQL tuple iterator with head and next found")
+	}
+}
+
+// replaceIdent replaces whole-word occurrences of the identifier id in s.
+func replaceIdent(s, id, with string) string {
+	var b strings.Builder
+	for i := 0; i < len(s); {
+		j := strings.Index(s[i:], id)
+		if j < 0 {
+			b.WriteString(s[i:])
+			break
+		}
+		j += i
+		before := j == 0 || !isIdentChar(s[j-1])
+		after := j+len(id) >= len(s) || !isIdentChar(s[j+len(id)])
+		b.WriteString(s[i:j])
+		if before && after {
+			b.WriteString(with)
+		} else {
+			b.WriteString(id)
+		}
+		i = j + len(id)
+	}
+	return b.String()
+}
+
+// topLevelOr: the raw SQL fragment contains an OR outside every pair of parentheses (and outside string literals).
+func topLevelOr(sql string) bool {
+	depth := 0
+	inStr := false
+	up := strings.ToUpper(sql)
+	for i := 0; i < len(up); i++ {
+		ch := up[i]
+		if ch == '\'' {
+			inStr = !inStr
+			continue
+		}
+		if inStr {
+			continue
+		}
+		switch ch {
+		case '(':
+			depth++
+		case ')':
+			depth--
+		}
+		if depth == 0 && strings.HasPrefix(up[i:], " OR ") {
+			return true
+		}
+	}
+	return false
+}
+
+// ruleRawDisjunctionParenthesised: squirrel joins the parts given to Where with AND and does not parenthesise raw
+// expressions.  A raw fragment with an OR at its top level therefore escapes every other conjunct — the store
+// predicate first of all: `store = ? AND … AND a OR b` is `(store = ? AND … AND a) OR b`.
+func ruleRawDisjunctionParenthesised(e *Engine, r *Reporter) {
+	r.Rule("raw-disjunction-parenthesised", "no raw SQL fragment passed to Where (directly, through sq.Expr, or returned by a helper) on a store-scoped table has an OR outside parentheses: it would bind weaker than the AND that joins it to the store predicate", 0)
+	for _, fn := range e.Fns {
+		if !sqlPkgs[pkgOf(fn)] || fn.Parent() != nil {
+			continue
+		}
+		for _, st := range e.sqlStmtsDeep(fn, 0) {
+			if st.Top != fn || !storeScopedTables[table(st)] {
+				continue
+			}
+			for i, w := range st.Wheres {
+				// raw fragments appear as raw(…) or Expr("…") in the rendered predicate (also inside alt(…))
+				frags := []string{}
+				t := w.Text
+				for _, marker := range []string{"raw(", "Expr("} {
+					for off := 0; ; {
+						j := strings.Index(t[off:], marker)
+						if j < 0 {
+							break
+						}
+						j += off + len(marker)
+						depth := 1
+						k := j
+						for ; k < len(t) && depth > 0; k++ {
+							switch t[k] {
+							case '(':
+								depth++
+							case ')':
+								depth--
+							}
+						}
+						frags = append(frags, strings.Trim(t[j:k-1], `"`))
+						off = k
+					}
+				}
+				for _, fr := range frags {
+					r.Check(!topLevelOr(fr), fmt.Sprintf("%s %s %s where #%d", fname(fn), st.Verb, table(st), i), e.pos(st.Root.Pos()), "no top-level OR", "the raw fragment `"+fr+"` has an OR outside parentheses; ANDed with the other predicates it reads as (store = ? AND …) OR <rest>: rows of every store that satisfy the rest are returned")
+				}
+			}
+		}
 	}
 }
